@@ -13,6 +13,7 @@ import (
 	"testing"
 	"time"
 
+	"github.com/valyala/bytebufferpool"
 	"github.com/valyala/fasthttp/internal/verif/mcrt"
 	mtime "github.com/valyala/fasthttp/internal/verif/mctime"
 	"github.com/valyala/fasthttp/internal/verif/mcx"
@@ -23,15 +24,23 @@ import (
 // DoTimeout / DoDeadline (rewritten sources, virtual clock) against a fake Dial that hands out one scripted connection
 // per attempt. The fault of every attempt is a free data choice (mcrt.Pick), so the explorer enumerates the complete
 // tree of fault sequences (up to 6 attempts; the tree only grows where the client really retries).
+//
+// Responses whose body exceeds MaxResponseBodySize are enumerated over their own sub-space: framing of the body
+// (Content-Length, chunked, close-delimited = neither: read until the peer closes) x amount by which the limit is exceeded
+// (one byte; several times the limit) x the limit itself relative to the sizes of the buffers the body readers use
+// (10: crossed inside the first read; 1023/1024: around the initial 1024-byte body buffer; 2000: crossed only after
+// the body buffer grew; 5000: larger than the 4096-byte bufio.Reader). "Exceeded the limit" is decided by the oracle
+// from the scripted response (body bytes carried/declared > limit), never from the error the client reports.
 
-const c19faults = "DWERTBOPXK" // the first 7 are the quick alphabet, thorough adds P X K
+const c19faults = "DWERTBOIPXK" // the first 8 are the quick alphabet, thorough adds P X K
 
 // D dial error · W write error (nothing accepted) · E EOF before any response byte · R connection reset in the middle
 // of the response head · T server never answers (read runs into its deadline) · B response body larger than
-// MaxResponseBodySize · O complete 200 response · P write error after 10 request bytes went out · X reset in the middle
+// MaxResponseBodySize (Content-Length framing) · O complete 200 response · I close-delimited response body (no
+// Content-Length, not chunked) larger than MaxResponseBodySize · P write error after 10 request bytes went out · X reset in the middle
 // of the response body · K chunked response body larger than MaxResponseBodySize
 
-var c19faultName = map[byte]string{'D': "dial-error", 'W': "write-error", 'E': "eof-before-response", 'R': "reset-mid-response", 'T': "read-timeout", 'B': "body-too-large", 'O': "ok",
+var c19faultName = map[byte]string{'D': "dial-error", 'W': "write-error", 'E': "eof-before-response", 'R': "reset-mid-response", 'T': "read-timeout", 'B': "body-too-large", 'O': "ok", 'I': "close-delimited-body-too-large",
 	'P': "partial-write-error", 'X': "reset-mid-body", 'K': "chunked-body-too-large"}
 
 var (
@@ -72,6 +81,7 @@ type c19conn struct {
 	o       *c19obs
 	attempt int
 	fault   byte
+	bodyLen int // body bytes the scripted response carries (declares, for Content-Length framing)
 	wrote   []byte
 	rdl     time.Time
 	resp    []byte
@@ -111,9 +121,14 @@ func (c *c19conn) Read(p []byte) (int, error) {
 		case 'R':
 			c.resp = []byte("HTTP/1.1 200 OK\r\nContent-Le")
 		case 'B':
-			c.resp = []byte("HTTP/1.1 200 OK\r\nContent-Length: 100\r\n\r\n")
+			c.resp = []byte(fmt.Sprintf("HTTP/1.1 200 OK\r\nContent-Length: %d\r\n\r\n", c.bodyLen))
 			if !head {
-				c.resp = append(c.resp, bytes.Repeat([]byte("b"), 100)...)
+				c.resp = append(c.resp, bytes.Repeat([]byte("b"), c.bodyLen)...)
+			}
+		case 'I':
+			c.resp = []byte("HTTP/1.1 200 OK\r\nContent-Type: text/plain\r\nConnection: close\r\n\r\n")
+			if !head {
+				c.resp = append(c.resp, bytes.Repeat([]byte("i"), c.bodyLen)...)
 			}
 		case 'X':
 			c.resp = []byte("HTTP/1.1 200 OK\r\nContent-Length: 5\r\n\r\n")
@@ -123,7 +138,17 @@ func (c *c19conn) Read(p []byte) (int, error) {
 		case 'K':
 			c.resp = []byte("HTTP/1.1 200 OK\r\nTransfer-Encoding: chunked\r\n\r\n")
 			if !head {
-				c.resp = append(c.resp, "40\r\n"+strings.Repeat("k", 64)+"\r\n0\r\n\r\n"...)
+				// three chunks: for a one-byte excess every chunk is within the limit (the sum crosses it), for the
+				// large excess already the first chunk is over the limit
+				for left := c.bodyLen; left > 0; {
+					n := (c.bodyLen + 2) / 3
+					if n > left {
+						n = left
+					}
+					c.resp = append(c.resp, fmt.Sprintf("%x\r\n%s\r\n", n, strings.Repeat("k", n))...)
+					left -= n
+				}
+				c.resp = append(c.resp, "0\r\n\r\n"...)
 			}
 		case 'O':
 			c.resp = []byte("HTTP/1.1 200 OK\r\nContent-Length: 2\r\n\r\n")
@@ -172,6 +197,27 @@ type c19cfg struct {
 	maxAtt int
 	cb     int
 	tmode  int // 0 Do, 1 DoTimeout, 2 DoDeadline
+	limit  int // MaxResponseBodySize
+	nover  int // number of excess amounts enumerated for an oversized body
+	cap0   int // capacity of the response body buffer the call starts with (0: none yet, the body readers allocate)
+}
+
+// c19excess: body sizes of an oversized response for limit l: one byte over; several times the limit.
+func c19excess(l, i int) int {
+	if i == 0 {
+		return l + 1
+	}
+	return 3*l + 70
+}
+
+func c19framing(f byte) string {
+	switch f {
+	case 'K':
+		return "chunked"
+	case 'I':
+		return "close-delimited"
+	}
+	return "content-length"
 }
 
 type c19obs struct {
@@ -179,6 +225,7 @@ type c19obs struct {
 	method  string
 	stream  bool
 	seq     []byte // fault per attempt
+	sizes   []int  // response body size per attempt (0: no response)
 	conns   []*c19conn
 	dialAt  []time.Duration
 	calls   []c19call
@@ -257,28 +304,45 @@ func c19body(cfg c19cfg) func() {
 		mcrt.SetUserData(o)
 		o.method = c19methods[mcrt.Pick(len(c19methods), "method")]
 		o.stream = mcrt.Pick(2, "body-stream") == 1
-		c := &HostClient{Addr: "c19:80", MaxIdemponentCallAttempts: cfg.maxAtt, ReadTimeout: c19readTimeout, MaxResponseBodySize: 10}
+		c := &HostClient{Addr: "c19:80", MaxIdemponentCallAttempts: cfg.maxAtt, ReadTimeout: c19readTimeout, MaxResponseBodySize: cfg.limit}
 		o.install(c)
 		c.Dial = func(addr string) (net.Conn, error) {
 			k := len(o.seq)
 			if k >= c19maxSeq {
 				o.seq = append(o.seq, 'D')
+				o.sizes = append(o.sizes, 0)
 				o.dialAt = append(o.dialAt, c19now())
 				o.conns = append(o.conns, nil)
 				return nil, errC19Dial
 			}
 			f := c19faults[mcrt.Pick(cfg.nfault, "fault")]
+			size := 0
+			switch f {
+			case 'B', 'I', 'K':
+				size = c19excess(cfg.limit, mcrt.Pick(cfg.nover, "excess"))
+			case 'O':
+				size = 2
+			case 'X':
+				size = 5
+			}
 			o.seq = append(o.seq, f)
+			o.sizes = append(o.sizes, size)
 			o.dialAt = append(o.dialAt, c19now())
 			if f == 'D' {
 				o.conns = append(o.conns, nil)
 				return nil, errC19Dial
 			}
-			cn := &c19conn{o: o, attempt: k, fault: f}
+			cn := &c19conn{o: o, attempt: k, fault: f, bodyLen: size}
 			o.conns = append(o.conns, cn)
 			return cn, nil
 		}
 		req, resp := AcquireRequest(), AcquireResponse()
+		// The response body buffer normally cycles through bytebufferpool's process-global (real) sync.Pool between
+		// attempts: what comes back depends on earlier executions, pool calibration and GC timing. The call gets a
+		// buffer of a stated capacity that the Response retains across attempts instead (keepBodyBuffer: the mode
+		// HostClient.Get(dst, url) runs Do in) = the pool with maximal reuse and a known starting point.
+		resp.keepBodyBuffer = true
+		resp.body = &bytebufferpool.ByteBuffer{B: make([]byte, 0, cfg.cap0)}
 		req.SetRequestURI("http://c19/path?x=1")
 		req.Header.SetMethod(o.method)
 		if o.stream {
@@ -333,7 +397,7 @@ func c19check(r *vrt.R) func(x *mcrt.Exec) (string, string, string) {
 		}
 		if len(o.seq) > 1 {
 			h := fnv.New64a()
-			fmt.Fprintf(h, "%v|%s|%v|%s", o.cfg, o.method, o.stream, o.seq)
+			fmt.Fprintf(h, "%v|%s|%v|%s|%v", o.cfg, o.method, o.stream, o.seq, o.sizes)
 			r.NontrivialHash(h.Sum64())
 		}
 		return c19judge(o, x)
@@ -369,8 +433,8 @@ func c19judge(o *c19obs, x *mcrt.Exec) (string, string, string) {
 	}
 	attempts := len(o.seq)
 	idem := o.method == MethodGet || o.method == MethodHead || o.method == MethodPut
-	desc := fmt.Sprintf("%s stream=%v MaxIdemponentCallAttempts=%d callback=%s %s faults=%s -> %d attempts, %d transmissions, result %s after %v",
-		o.method, o.stream, o.cfg.maxAtt, c19cbNames[o.cfg.cb], []string{"Do", "DoTimeout(2.5s)", "DoDeadline(+2.5s)"}[o.cfg.tmode], o.seq, attempts, tx, c19errKind(o.err), o.t1-o.t0)
+	desc := fmt.Sprintf("%s stream=%v MaxIdemponentCallAttempts=%d MaxResponseBodySize=%d body-buffer-cap=%d callback=%s %s faults=%s -> %d attempts, %d transmissions, result %s after %v",
+		o.method, o.stream, o.cfg.maxAtt, o.cfg.limit, o.cfg.cap0, c19cbNames[o.cfg.cb], []string{"Do", "DoTimeout(2.5s)", "DoDeadline(+2.5s)"}[o.cfg.tmode], o.seq, attempts, tx, c19errKind(o.err), o.t1-o.t0)
 	cls := fmt.Sprintf("tx=%d att=%d %s", tx, attempts, c19errKind(o.err))
 	if attempts == 0 {
 		return cls, "retry-harness-anomaly", desc + ": the call never dialled"
@@ -388,8 +452,14 @@ func c19judge(o *c19obs, x *mcrt.Exec) (string, string, string) {
 		return cls, "retry-non-idempotent-retransmitted", desc + fmt.Sprintf(" (callbacks allowed %d retries)", allowed)
 	}
 	for i, f := range o.seq[:attempts-1] {
-		if (f == 'B' || f == 'K') && o.method != MethodHead {
-			return cls, "retry-after-body-too-large", desc + fmt.Sprintf(" (attempt %d exceeded MaxResponseBodySize and was followed by another attempt)", i+1)
+		// the response of attempt i+1 exceeded the limit iff the scripted body (carried or declared) is larger; a
+		// response to HEAD carries no body
+		if o.sizes[i] > o.cfg.limit && o.method != MethodHead {
+			sig := "retry-after-body-too-large"
+			if fr := c19framing(f); fr != "content-length" {
+				sig = "retry-after-" + fr + "-body-too-large"
+			}
+			return cls, sig, desc + fmt.Sprintf(" (attempt %d: %s response body of %d bytes exceeded MaxResponseBodySize=%d and was followed by another attempt)", i+1, c19framing(f), o.sizes[i], o.cfg.limit)
 		}
 	}
 	if o.stream && attempts > 1 {
@@ -427,8 +497,18 @@ func (o *c19obs) tags() {
 	if o.t1-o.t0 > o.timeout && o.timeout > 0 {
 		mcrt.Covered("timeout-extended-by-reset")
 	}
-	for _, f := range o.seq {
+	for i, f := range o.seq {
 		mcrt.Covered("fault-" + c19faultName[f])
+		if o.sizes[i] > o.cfg.limit && o.method != MethodHead {
+			ex := "one-byte-over"
+			if o.sizes[i] > o.cfg.limit+1 {
+				ex = "several-times-over"
+			}
+			mcrt.Covered("oversized-" + c19framing(f) + "-" + ex)
+			if o.err == ErrBodyTooLarge && i == n-1 {
+				mcrt.Covered("oversized-reported-ErrBodyTooLarge")
+			}
+		}
 	}
 	idem := o.method == MethodGet || o.method == MethodHead || o.method == MethodPut
 	if !idem && n > 1 {
@@ -446,28 +526,44 @@ func TestVerif_C19(t *testing.T) {
 	r := vrt.Begin(t, "C19", "fault_enumeration")
 	defer r.End()
 	r.Rule("real HostClient.Do / DoTimeout(2.5s) / DoDeadline(+2.5s) on one caller thread under the virtual clock; the fake Dial hands out one scripted conn per attempt whose fault is a free choice among " +
-		"{dial error, write error, EOF before any response byte, reset mid-response, silent server (read deadline, ReadTimeout 1s), body over MaxResponseBodySize, ok; thorough adds: write error after 10 bytes, reset mid-body, chunked body over the limit}: the complete tree of fault sequences (<=6 attempts) is enumerated " +
+		"{dial error, write error, EOF before any response byte, reset mid-response, silent server (read deadline, ReadTimeout 1s), Content-Length body over MaxResponseBodySize, ok, close-delimited body (no Content-Length, not chunked) over MaxResponseBodySize; thorough adds: write error after 10 bytes, reset mid-body, chunked body (3 chunks) over the limit}: the complete tree of fault sequences (<=6 attempts) is enumerated " +
+		"x for every oversized body the excess {limit+1; thorough adds 3*limit+70} x MaxResponseBodySize {10 (crossed inside the first read), 2000 (crossed only after the 1024-byte body buffer grew); thorough adds 1023, 1024 (around the initial body buffer) and 5000 (> the 4096-byte bufio.Reader)} x capacity of the response body buffer the call starts with {0 = none (the reader allocates 1024); thorough adds 8 (a small recycled buffer that has to grow)} " +
 		"x method {GET,HEAD,PUT,POST,DELETE,PATCH,OPTIONS} x body stream yes/no x MaxIdemponentCallAttempts {0,1,2} x 11 callback configurations (RetryIf true/false, RetryIfErr / RetryIfErrUpstream with and without timeout reset, attempt-dependent, RetryIf shadowed by RetryIfErr). " +
-		"Oracle per call: transmissions (conns that accepted request bytes) and attempts <= limit (5 by default); methods other than GET/HEAD/PUT transmitted at most 1 + (callback answers 'retry'); no attempt after an attempt that exceeded MaxResponseBodySize; " +
+		"Oracle per call: transmissions (conns that accepted request bytes) and attempts <= limit (5 by default); methods other than GET/HEAD/PUT transmitted at most 1 + (callback answers 'retry'); no attempt after an attempt whose scripted response body (carried, or declared by Content-Length) was larger than MaxResponseBodySize, whatever error the client derived from it (sig names the framing); " +
 		"a single attempt with a body stream; with a request timeout the call returns (and starts no attempt) later than timeout after the start or after the last reset a callback asked for. Non-trivial: calls with >=2 attempts")
 	r.Assume("mcrt virtual clock and shim semantics", "fake conns honour read deadlines exactly on the virtual clock; dial, write and the other faults take no time",
-		"only the default schedule is run (bound 0): the caller is the only thread apart from the sleeping connsCleaner")
+		"only the default schedule is run (bound 0): the caller is the only thread apart from the sleeping connsCleaner",
+		"the Response keeps its body buffer across attempts (keepBodyBuffer, as under HostClient.Get(dst, url)) and starts with the stated capacity, instead of taking whatever bytebufferpool's process-global sync.Pool returns (depends on earlier executions and GC timing)")
 	var scs []mcx.Scenario
-	nf := vrt.Pick(r, 7, 10)
+	nf := vrt.Pick(r, 8, 11)
 	r.Set("fault_alphabet", c19faults[:nf])
+	limits := vrt.Pick(r, []int{10, 2000}, []int{10, 1023, 1024, 2000, 5000})
+	nover := vrt.Pick(r, 1, 2)
+	r.Set("max_response_body_sizes", fmt.Sprint(limits))
+	r.Set("oversized_body_excess_amounts", nover)
+	caps := vrt.Pick(r, []int{0}, []int{0, 8})
+	r.Set("initial_body_buffer_capacities", fmt.Sprint(caps))
+	var limcaps [][2]int
+	for _, l := range limits {
+		for _, c := range caps {
+			limcaps = append(limcaps, [2]int{l, c})
+		}
+	}
 	for cb := range c19cbNames {
 		for _, ma := range []int{0, 1, 2} {
 			for tm := 0; tm < 3; tm++ {
-				cfg := c19cfg{nfault: nf, maxAtt: ma, cb: cb, tmode: tm}
-				body := c19body(cfg)
-				name := fmt.Sprintf("%s/max%d/%s", c19cbNames[cb], ma, []string{"Do", "DoTimeout", "DoDeadline"}[tm])
-				scs = append(scs, mcx.Scenario{Name: name, Cfg: mcrt.Config{Bound: 0, Horizon: 4000}, Check: c19check(r),
-					Body: func() {
-						body()
-						if o, _ := mcrt.UserData().(*c19obs); o != nil && o.done {
-							o.tags()
-						}
-					}})
+				for _, lc := range limcaps {
+					cfg := c19cfg{nfault: nf, maxAtt: ma, cb: cb, tmode: tm, limit: lc[0], nover: nover, cap0: lc[1]}
+					body := c19body(cfg)
+					name := fmt.Sprintf("%s/max%d/%s/lim%d/cap%d", c19cbNames[cb], ma, []string{"Do", "DoTimeout", "DoDeadline"}[tm], lc[0], lc[1])
+					scs = append(scs, mcx.Scenario{Name: name, Cfg: mcrt.Config{Bound: 0, Horizon: 4000}, Check: c19check(r),
+						Body: func() {
+							body()
+							if o, _ := mcrt.UserData().(*c19obs); o != nil && o.done {
+								o.tags()
+							}
+						}})
+				}
 			}
 		}
 	}
